@@ -3,6 +3,7 @@
 #include "common/verif.hpp"
 extern "C" {
 #include "cstl/heap.h"
+void vf_static_heap(struct cstl_heap *h, cstl_compare_func_t *cmp, void *priv, size_t off);
 }
 using namespace vf;
 
@@ -64,7 +65,8 @@ struct Heap {
         recycle.clear();
         next_id = 0;
         memset(&h, 0xA5, sizeof h);      // init must set every field itself (storage that is not zero-filled)
-        cstl_heap_init(&h, cmp_cb, &g_priv_token, offsetof(Elem, hn));
+        if ((g_case_hash >> 21) & 1) vf_static_heap(&h, cmp_cb, &g_priv_token, offsetof(Elem, hn));    // CSTL_HEAP_INITIALIZER
+        else cstl_heap_init(&h, cmp_cb, &g_priv_token, offsetof(Elem, hn));
     }
     Elem *mk(int prio)
     {
